@@ -154,6 +154,15 @@ impl encode::EncodeLtd for Publish {
     }
 
     fn encode(&self, buf: &mut BytePages, size: u32) -> Result<(), EncodeError> {
+        // validate before anything is written, a failed encode must not leave bytes behind
+        if self.qos == QoS::AtMostOnce {
+            if self.packet_id.is_some() {
+                return Err(EncodeError::MalformedPacket); // packet id must not be set
+            }
+        } else if self.packet_id.is_none() {
+            return Err(EncodeError::PacketIdRequired);
+        }
+
         // publish fixed headers
         buf.put_u8(
             packet_type::PUBLISH_START
@@ -167,12 +176,8 @@ impl encode::EncodeLtd for Publish {
         let start_len = buf.len();
 
         self.topic.encode(buf)?;
-        if self.qos == QoS::AtMostOnce {
-            if self.packet_id.is_some() {
-                return Err(EncodeError::MalformedPacket); // packet id must not be set
-            }
-        } else {
-            self.packet_id.ok_or(EncodeError::PacketIdRequired)?.encode(buf)?;
+        if let Some(packet_id) = self.packet_id {
+            packet_id.encode(buf)?;
         }
         self.properties
             .encode(buf, size - (buf.len() - start_len + self.payload_size as usize) as u32)?;
